@@ -47,7 +47,7 @@ theorem C02_reject (c : Cfg) (s : SchedSt) (r : Req)
     (h : (if r.cpr = 0 then 1 else r.cpr) > c.cpn ∨ r.gpr > c.gpn * 16 ∨ r.lfs > c.lfsPn ∨ r.mem > c.memPn) :
     scheduleTask c s r = (.error .assertion, s) := by
   unfold scheduleTask
-  simp only [h, if_true]
+  rw [if_pos (by unfold cpsOf; exact h)]
 
 /-- a single-rank (non-MPI) task needing more ranks than one node can host is a ValueError -/
 theorem C02_nonmpi_single_node (c : Cfg) (s : SchedSt) (r : Req)
@@ -55,9 +55,9 @@ theorem C02_nonmpi_single_node (c : Cfg) (s : SchedSt) (r : Req)
     (h1 : ¬ r.ranks > 1) (h2 : r.ranks.toNat > slotsPerNode c r (if r.cpr = 0 then 1 else r.cpr)) :
     scheduleTask c s r = (.error .value, s) := by
   unfold scheduleTask
-  simp only [h0, if_false]
+  rw [if_neg (by unfold cpsOf; exact h0)]
   have : decide (r.ranks > 1) = false := by simpa using h1
-  simp [this, h2]
+  rw [if_pos ⟨by simp [this], by unfold cpsOf; exact h2⟩]
 
 /-- the ranks-per-node limit bounds the number of slots asked of any one node -/
 theorem C02_ranks_per_node (c : Cfg) (r : Req) (cps : Nat) (h : r.rpn ≠ 0) : slotsPerNode c r cps ≤ r.rpn := by
